@@ -134,5 +134,5 @@ func (e *sessionEnvironment) DefaultCountry() i18n.Country {
 }
 
 func (e *sessionEnvironment) DefaultLocale() i18n.Locale {
-	return i18n.NewLocale(e.DefaultLanguage(), e.DefaultCountry())
+	return envs.NewLocale(e.DefaultLanguage(), e.DefaultCountry())
 }
